@@ -84,6 +84,17 @@ def check_port(ctx, backend, route, scheme, port, host, ui):
         ctx.check(u.explicit_port == p and u.port == (p if p is not None else default) and u.is_default_port() is is_def, "port accessors of a verbatim URL wrong",
                   observed=[u.explicit_port, u.port, u.is_default_port()], expected=[p, p if p is not None else default, is_def], entry=route)
         ctx.check(u.host_port_subcomponent == _exp_hps(hps, p, scheme), "host_port_subcomponent wrong", observed=u.host_port_subcomponent, expected=_exp_hps(hps, p, scheme), entry=route)
+        # a written port (default or not) stays the written port through every operation that does not address it
+        for dname, f in (("origin", lambda x: x.origin()), ("with_user", lambda x: x.with_user("x")), ("with_user-none", lambda x: x.with_user(None)), ("with_password-none", lambda x: x.with_password(None)),
+                         ("with_host", lambda x: x.with_host("other.example")), ("with_path", lambda x: x.with_path("/q")), ("with_fragment", lambda x: x.with_fragment("f")),
+                         ("with_query", lambda x: x.with_query(a="1")), ("truediv", lambda x: x / "s"), ("parent", lambda x: x.parent)):
+            try:
+                w = f(u)
+            except ValueError:
+                continue  # origin() of a scheme-less URL, ...: refused, nothing to compare
+            if not ctx.check(w.explicit_port == p and w.port == (p if p is not None else default) and w.is_default_port() is is_def, "the written port changed through an operation that does not address it",
+                             observed=[dname, str(w), w.explicit_port, w.port, w.is_default_port()], expected=[p, p if p is not None else default, is_def], entry=route + ":" + dname):
+                break
         v = URL(str(u))
         ctx.check(v.port == (p if p is not None else default) and v.explicit_port == (None if is_def else p) and v.raw_host == hraw, "str() of a verbatim URL re-parses with a different port/host",
                   observed={"str": str(u), "port": v.port, "explicit": v.explicit_port, "host": v.raw_host}, expected=[p, hraw], entry=route)
